@@ -114,6 +114,13 @@ def case(cid, rng):
                 route("whole-cell-shift-of-descriptors", D + ca * rng.integers(-2, 3, size=D.shape), w, G, Q)
                 route("whole-cell-shift-of-grid-points", D, w, G + ca * rng.integers(-2, 3, size=G.shape), Q)
     except Exception as e:  # noqa
+        if "infs or NaNs" in str(e):
+            # a 0/0 covariance (the localisation did not reach another grid point) surfaces as a LinAlgError inside
+            # the eigenvalue routine: the same undecidable proviso as a non-finite bandwidth
+            c["finite"] = False
+            c["H"] = [[[0] * dim] * dim] * ng
+            c["ld"] = [0] * len(Q)
+            return c
         c["raised"] = True
         c["errclass"] = type(e).__name__
         c["msg"] = "%s: %s" % (type(e).__name__, str(e)[:120])
